@@ -303,3 +303,18 @@ pub proof fn vx_copula_hint(st: &ParseState<'_, &str>, start: usize, arr: Seq<&s
         assert(lenient_kw_at(sub, 0, arr[k]@));
     }
 }
+
+/// copula_at depends on the input and the format only
+pub proof fn lemma_copula_at_same(a: &ParseState<'_, &str>, b: &ParseState<'_, &str>, i: int)
+    requires a.same_input(b)
+    ensures a.copula_at(i) == b.copula_at(i)
+{
+    if a.copula_at(i) {
+        let k = choose|k: int| 0 <= k < 13 && lenient_kw_at(a.env@, i, #[trigger] copula_seq(a.format)[k]);
+        assert(lenient_kw_at(b.env@, i, copula_seq(b.format)[k]));
+    }
+    if b.copula_at(i) {
+        let k = choose|k: int| 0 <= k < 13 && lenient_kw_at(b.env@, i, #[trigger] copula_seq(b.format)[k]);
+        assert(lenient_kw_at(a.env@, i, copula_seq(a.format)[k]));
+    }
+}
